@@ -336,7 +336,7 @@ def run(ck):
   # ---- M ------------------------------------------------------------------------------------------
   ck.mc("OCO_MC", "OCO_MC" if quick else "OCO_MCT", required_actions=["OgdStep", "Ada", "Fd"])
   # ---- R: exported behaviours ------------------------------------------------------------------------
-  beh = ck.gen("OCO_Gen", "OCO_Gen")
+  beh = ck.gen("OCO_Gen", "OCO_Gen" if quick else "OCO_GenT", timeout=2400)
   sim = ck.gen("OCO_Gen", "OCO_GenS", simulate=60 if quick else 600, depth=7)
   seen, simu = set(), []
   for b in sim:
